@@ -207,11 +207,8 @@ pub async fn scenario_b(base: u32, rcv: Rcv, events: Vec<EvB>) -> ObsB {
     let mut dls: Vec<RDl> = vec![];
     let mut deliveries: Vec<Delivery<Value>> = vec![];
     for k in 0..N {
-        let id = c.peer.sessions.get(&link.lib_channel).map(|s| s.next_outgoing_id).unwrap_or(base.wrapping_add(k as u32));
-        if id != base.wrapping_add(k as u32) {
-            obs.machinery = Some(format!("scripted sender's delivery-id bookkeeping: {id} for delivery {k}"));
-            return obs;
-        }
+        // delivery-ids are the scripted sender's own sequence (they need not equal the transfer-ids: delivery 1 takes two frames)
+        let id = base.wrapping_add(k as u32);
         let tag = format!("tag-{k}").into_bytes();
         let t = Transfer {
             handle: Handle(link.our_handle),
@@ -226,7 +223,21 @@ pub async fn scenario_b(base: u32, rcv: Rcv, events: Vec<EvB>) -> ObsB {
             aborted: false,
             batchable: false,
         };
-        c.peer.send_perf(ch, Performative::Transfer(t), &payload(k));
+        if k == 1 {
+            // the second delivery comes in two frames; the continuation frame omits delivery-id, tag and format
+            let body = payload(k);
+            let cut = body.len() / 2;
+            let mut first = t.clone();
+            first.more = true;
+            c.peer.send_perf(ch, Performative::Transfer(first), &body[..cut]);
+            let mut rest = t.clone();
+            rest.delivery_id = None;
+            rest.delivery_tag = None;
+            rest.message_format = None;
+            c.peer.send_perf(ch, Performative::Transfer(rest), &body[cut..]);
+        } else {
+            c.peer.send_perf(ch, Performative::Transfer(t), &payload(k));
+        }
         dls.push(RDl { tag, ..Default::default() });
     }
     for k in 0..N {
